@@ -21,8 +21,9 @@ type C15Cfg struct {
 	Order   []int    `json:"order"`   // reply order: request ids (index into the flattened caller strings)
 	Fault   string   `json:"fault"`   // "", stall, close, corrupt
 	FaultAt int      `json:"fault_at"`
-	Imm     bool     `json:"imm"`              // the fault happens right after reply FaultAt-1, without waiting for request Order[FaultAt]
-	Server  bool     `json:"server,omitempty"` // the peer is the REAL rpc.Server (replica side) over a stub data processor
+	Imm     bool     `json:"imm"`                // the fault happens right after reply FaultAt-1, without waiting for request Order[FaultAt]
+	Server  bool     `json:"server,omitempty"`   // the peer is the REAL rpc.Server (replica side) over a stub data processor
+	DataErr int      `json:"data_err,omitempty"` // Server: the data processor refuses request DataErr-1 with an I/O error (0 = none)
 }
 
 func (c C15Cfg) String() string {
@@ -34,6 +35,9 @@ func (c C15Cfg) String() string {
 		}
 	}
 	if c.Server {
+		if c.DataErr > 0 {
+			return fmt.Sprintf("%s callers=%s peer=real rpc.Server, the data processor refuses request %d", c.Name, strings.Join(c.Callers, "|"), c.DataErr-1)
+		}
 		return fmt.Sprintf("%s callers=%s peer=real rpc.Server", c.Name, strings.Join(c.Callers, "|"))
 	}
 	return fmt.Sprintf("%s callers=%s order=%v fault=%s", c.Name, strings.Join(c.Callers, "|"), c.Order, f)
@@ -306,6 +310,16 @@ func (st *c15State) peer(conn *VConn) {
 // c15Data is the data processor behind the real rpc.Server: reads return the pattern of their range, writes must carry it.
 type c15Data struct{ st *c15State }
 
+// refuses reports whether the configuration makes the data processor fail this request (disk full on the replica).
+func (d c15Data) refuses(typ uint32, off, size int64) bool {
+	k := d.st.cfg.DataErr - 1
+	if k < 0 || k >= len(d.st.ops) {
+		return false
+	}
+	o := d.st.ops[k]
+	return o.typ == typ && o.off == off && o.size == size
+}
+
 func (d c15Data) mark(typ uint32, off, size int64) {
 	vs.Atomic(func() {
 		for i := range d.st.ops {
@@ -318,13 +332,22 @@ func (d c15Data) mark(typ uint32, off, size int64) {
 		d.st.peerBad = append(d.st.peerBad, fmt.Sprintf("the server handed an unknown request to the data processor: type=%d off=%d size=%d", typ, off, size))
 	})
 }
+
+var errC15NoSpace = fmt.Errorf("no space left on device (injected in the data processor)")
+
 func (d c15Data) ReadAt(b []byte, off int64) (int, error) {
 	d.mark(rpc.TypeRead, off, int64(len(b)))
+	if d.refuses(rpc.TypeRead, off, int64(len(b))) {
+		return 0, errC15NoSpace
+	}
 	copy(b, pattern(off, int64(len(b))))
 	return len(b), nil
 }
 func (d c15Data) WriteAt(b []byte, off int64) (int, error) {
 	d.mark(rpc.TypeWrite, off, int64(len(b)))
+	if d.refuses(rpc.TypeWrite, off, int64(len(b))) {
+		return 0, errC15NoSpace
+	}
 	if !bytes.Equal(b, pattern(off, int64(len(b)))) {
 		vs.Atomic(func() {
 			d.st.peerBad = append(d.st.peerBad, fmt.Sprintf("write off=%d len=%d reached the data processor with the wrong payload", off, len(b)))
@@ -332,7 +355,13 @@ func (d c15Data) WriteAt(b []byte, off int64) (int, error) {
 	}
 	return len(b), nil
 }
-func (d c15Data) Sync() (int, error)              { d.mark(rpc.TypeSync, 0, 0); return 0, nil }
+func (d c15Data) Sync() (int, error) {
+	d.mark(rpc.TypeSync, 0, 0)
+	if d.refuses(rpc.TypeSync, 0, 0) {
+		return -1, errC15NoSpace
+	}
+	return 0, nil
+}
 func (d c15Data) Unmap(off, l int64) (int, error) { d.mark(rpc.TypeUnmap, off, l); return 0, nil }
 func (d c15Data) Close() error                    { return nil }
 func (d c15Data) PingResponse() error             { d.mark(rpc.TypePing, 0, 0); return nil }
@@ -419,6 +448,18 @@ func (st *c15State) judge(earlyTimer bool) *Outcome {
 			// the same error value, but handed out as the client's sticky error before this request's deadline
 			cl = "err(" + r.err.Error() + ")"
 		}
+		if cfg.Server && cfg.DataErr > 0 && i == cfg.DataErr-1 {
+			// the replica answered this request with an error reply: the caller gets an error (the reply reached ITS
+			// request, promptly), nobody else is affected and the connection is not given up
+			switch {
+			case r.err == nil:
+				viol("error-reply-lost", k, "request %d (%c) returned success although the replica's data processor refused it", i, o.kind)
+			case cl == "own-deadline":
+				viol("error-reply-not-delivered", k, "request %d (%c) was answered by the replica with an error reply but returned only when its own deadline fired at %v", i, o.kind, time.Duration(ownDeadline))
+			}
+			obs = append(obs, fmt.Sprintf("%d%c:refused-by-replica:%s", i, o.kind, cl))
+			continue
+		}
 		late := ""
 		if r.err != nil {
 			anyTransportErr = true
@@ -445,6 +486,9 @@ func (st *c15State) judge(earlyTimer bool) *Outcome {
 			// sticky: no request issued after another one returned a transport error may succeed
 			for j := range st.ops {
 				q := st.recs[j]
+				if cfg.Server && cfg.DataErr > 0 && j == cfg.DataErr-1 {
+					continue // an error REPLY of the replica is not a failure of the connection
+				}
 				if j != i && q.returned && q.err != nil && q.retStep < r.issueStep {
 					viol("later-request-succeeded", k, "request %d (%c) was issued after request %d had returned %q and still succeeded", i, o.kind, j, errClass(q.err))
 				}
@@ -593,7 +637,13 @@ func C15Configs(sc Scenario) []C15Cfg {
 	}
 	if sc.Server {
 		// the real server decides the reply order itself; no scripted fault
-		return []C15Cfg{{Name: sc.Name, Callers: sc.Callers, Server: true}}
+		out := []C15Cfg{{Name: sc.Name, Callers: sc.Callers, Server: true}}
+		for k := 1; k <= n; k++ {
+			if kind := flatten(sc.Callers)[k-1].kind; kind != 'P' {
+				out = append(out, C15Cfg{Name: sc.Name, Callers: sc.Callers, Server: true, DataErr: k})
+			}
+		}
+		return out
 	}
 	for _, ord := range linearExtensions(sc.Callers) {
 		add(C15Cfg{Name: sc.Name, Callers: sc.Callers, Order: ord})
